@@ -88,11 +88,35 @@ def conf_id(conf) -> str:
     return hashlib.sha1(json.dumps(conf, sort_keys=True).encode()).hexdigest()[:10]
 
 
+def handwritten_preset(base):
+    """a preset written by hand the way applications do: a dict with options and explicit rule lists per component - but, like
+    the documented minimal examples, without the optional 'rules2' list of the inline component"""
+    import copy
+    from markdown_it import parser_block, parser_core, parser_inline, presets
+    mod = {"commonmark": presets.commonmark, "js-default": presets.js_default, "default": presets.default, "zero": presets.zero, "gfm-like": presets.gfm_like}[base]
+    cfg = copy.deepcopy(mod.make())
+    comps = cfg.setdefault("components", {})
+    allr = {"core": [r[0] for r in parser_core._rules], "block": [r[0] for r in parser_block._rules], "inline": [r[0] for r in parser_inline._rules]}
+    for ch in ("core", "block", "inline"):
+        comp = comps.setdefault(ch, {})
+        if not comp.get("rules"):
+            comp["rules"] = [r for r in allr[ch] if r != "linkify" or cfg["options"].get("linkify")]
+    had = comps["inline"].pop("rules2", None)
+    if had is not None and base == "zero":
+        # (zero lists only balance_pairs/fragments_join: without the list all post-processing rules stay on, which is harmless as
+        # long as their inline counterparts are off)
+        pass
+    return cfg
+
+
 def build(conf):
     """conf: {"preset", "options": {...}, "enable": [...], "disable": [...], "stub_linkify": bool}"""
     from markdown_it import MarkdownIt
 
-    md = MarkdownIt(conf.get("preset", "commonmark"), conf.get("options") or None)
+    preset = conf.get("preset", "commonmark")
+    if conf.get("handwritten"):
+        preset = handwritten_preset(preset)
+    md = MarkdownIt(preset, conf.get("options") or None)
     if conf.get("enable"):
         md.enable(list(conf["enable"]))
     if conf.get("disable"):
